@@ -99,6 +99,7 @@ def check_C02(ctx, tier):
     A.rule_A_ABS(ctx, ctx.repo, ac)               # ... and under the same location whatever the working directory is by then
     A.rule_A_WRITEALL(ctx, ctx.repo, ac)          # ... every dumped entry is really written (no "already there" shortcut decided on this handle's view)
     A.rule_A_NOCACHE(ctx, ctx.repo, ac)           # ... and read back from the store itself (a second decorator's handle sees it)
+    A.rule_A_ZSTREAM(ctx, ctx.repo)               # ... and the reader of compressed entries accepts whatever the writer stored (no reader-only size limit)
     A.rule_A_PATHNORM(ctx, ctx.repo)              # ... and no guard on the way refuses every key because it compares a resolved path with an unresolved one
     ctx.assume('cache.load(k) retrieves what cache.dump(k) stored for every backend (C03/C04/C08 decide their structural part)')
     ctx.assume('cache.archived() and purge have one value during a single wrapper call')
